@@ -284,6 +284,17 @@ def cmdSimCtx (c : SimCtx) (t : List String) : SimCtx × String :=
       | (some id, dev') => ({ c with sim := { s with dev := dev' } }, toString id)
       | (none, _) => (c, "fail")
     | _, _, _, _ => bad
+  | ["rec", rd, wr, base, ports, wrap] =>
+    -- `wrap`: how the harness hands the device over (w0 = by value, w1 = Arc<Mutex<_>>, w2 = Arc<RwLock<_>>); with the
+    -- locks free all three must behave the same
+    if wrap = "w0" ∨ wrap = "w1" ∨ wrap = "w2" then
+      match pb rd, pb wr, parseW base, (if ports == "-" then some [] else parseList parseW ports ",") with
+      | some rd, some wr, some base, some ps =>
+        match s.dev.addDevice (.recorder rd wr base 0 []) ps with
+        | (some id, dev') => ({ c with sim := { s with dev := dev' } }, toString id)
+        | (none, _) => (c, "fail")
+      | _, _, _, _ => bad
+    else bad
   | ["rmdev", id] => match id.toNat? with
     | some id => ({ c with sim := { s with dev := s.dev.removeDevice id } }, "ok")
     | none => bad
